@@ -46,6 +46,12 @@ CHECKS = {
  "C13": (EX, "DESIGN.md §3 C13", "runtime monitoring: reference interpreter vs Generator.Adjust, repeated-application determinism monitor, mount-order and untouched-remainder assertions",
          "Random specs x adjustments applied by the real generator 16/32 times each; result compared with a reference interpreter written from the statement, with itself across repetitions, and checked for parent-before-child mounts and an untouched remainder.",
          "Memory limit also setting swap is taken as intended (asserted by the repo's own suite); rshared/rslave propagation excluded (reads the host mount table)."),
+ "C15": (EX, "DESIGN.md §3 C15", "runtime monitoring: plugin types generated and compiled at check time, driven by a scripted raw runtime; handler-invocation recorder and response comparison; race detector",
+         "One struct type per subset of the thirteen handler interfaces (all 8192 in the thorough tier) is generated, compiled and run against a raw protocol peer: subscription mask, configuration-time subsets and rejections, exactly-once dispatch of every event to exactly its handler with equal arguments, results and errors returned unchanged.",
+         "The runtime end is a harness peer on the public multiplexer and generated ttRPC stubs; unimplemented events are only checked for the absence of stray invocations."),
+ "C16": (FE, "DESIGN.md §3 C16", "runtime monitoring with fault injection: cut-wrapper on the stub's own connection at enumerated handshake byte offsets, Start/Stop/Wait/loss histories, hang rule with goroutine dumps, hook-delayed close notification, race detector",
+         "The handshake is cut at byte offsets in both directions (every offset in the thorough tier) and fixed plus random histories of Start, failing Start, Stop, Wait, connection loss are executed; every call must return, a later Start on a fresh connection must work and survive the earlier session's late notification, the close notification fires once per established session.",
+         "Whether OnClose also fires for a never-established attempt is not asserted; the first Start is bounded by the stub's built-in 5 s registration timeout."),
  "C19": (EX, "DESIGN.md §3 C19", "runtime monitoring: online mutual-exclusion counters in the update callback and lifecycle handlers, offline exactly-once/equality checker over unique update ids, porcupine sequencer model, race detector",
          "Plugins issue unsolicited updates concurrently with each other and with lifecycle requests; the callback's overlap with itself and with any handler is counted online; arguments and results are compared by unique id offline.",
          "Overlap is observed at the callback and handler boundaries of one process; empty update lists carry no id and are not generated."),
